@@ -6,6 +6,9 @@ HARNESS_TIMEOUT = dict(quick=600, thorough=2400)
 KANI_TOTAL_TIMEOUT = dict(quick=1500, thorough=7200)
 
 # placeholders substituted into harness files (/verif/kani/<crate>/*.rs) per tier
+# table sizes (max_inflight) for which every @steps harness is instantiated
+STEP_NS = dict(quick=[2], thorough=[1, 2, 3, 4])
+
 KANI_SUBST = dict(
     quick=dict(NMAX=3, UNWIND=10),
     thorough=dict(NMAX=5, UNWIND=12),
@@ -38,7 +41,27 @@ KANI = dict(
 
 CONFIRM = {}
 
+NATIVE = dict(
+    rumqttc=dict(modules=[('src/state.rs', 'state_v4.rs', 'verif_native')]),
+    rumqttd=dict(modules=[]),
+)
+NATIVE_ENV = dict(quick=dict(VERIF_NMAX=3, VERIF_DEPTH=9), thorough=dict(VERIF_NMAX=4, VERIF_DEPTH=12))
+
+_CLIENT_STATE_TRUSTED = [
+    'Kani 0.68 / CBMC 6.11 (bit-precise; machine arithmetic exact, overflow checks on)',
+    'harness-built pre-states: all states satisfying wf with the stated table size; Instant values zeroed (FFI clock not modelled)',
+    'topic and payload of publishes are empty in the harnesses (no state handler inspects them)',
+    'results holding StateError and the state are mem::forget-ed (CBMC 6.11 aborts on the io::Error drop glue)',
+]
+
 PROPS = dict(
+    C02=dict(
+        verus=[], kani=['rumqttc'], native=['rumqttc'],
+        scope='rumqttc MqttState (v4): handle_incoming_{puback,pubrec,pubcomp}, outgoing_publish, outgoing_pubrel/save_pubrel, clean — inductive-step contracts over all well-formed states',
+        residual='EventLoop::{clean,poll,select,next_request} and Network are async (tokio::select!, Framed): that clean() runs on every error, that pending is kept iff session_present and drained before the channel is an unverified composition',
+        trusted_base=_CLIENT_STATE_TRUSTED,
+        assumptions=['bounded in table size (max_inflight) only: quick n=2 (outgoing_publish n=1,2), thorough n=1..4; packet ids, QoS, flags full domain'],
+    ),
     C13=dict(
         verus=['commitlog'],
         kani=[],
